@@ -50,6 +50,138 @@ func (fc *FnCtx) findContract(keys []string) *Contract {
 }
 
 func (fc *FnCtx) execCallWith(fr *frame, st *State, c *ssa.CallCommon, fnv Val, args []Val, instr ssa.Value, pos token.Pos) (Val, bool) {
+	anchor := fc.callAnchor(c, fnv)
+	fc.pointClauses(st, "before_call", anchor, pos)
+	v, ok := fc.execCallWith1(fr, st, c, fnv, args, instr, pos)
+	if ok {
+		vars := map[string]Val{}
+		if v.T != "" {
+			vars["result"] = v
+		}
+		for i, t := range v.Tuple {
+			vars[fmt.Sprintf("result%d", i)] = t
+		}
+		fc.pointClausesV(st, "after_call", anchor, pos, vars)
+	}
+	return v, ok
+}
+
+// callAnchor names a call site: "<callee short name>#<k>", k-th call of that callee in the function
+// being executed (static instruction order). Contracts attach ghost updates and assertions to it.
+func (fc *FnCtx) callAnchor(c *ssa.CallCommon, fnv Val) string {
+	if fc.anchors == nil {
+		fc.anchors = map[*ssa.CallCommon]string{}
+	}
+	if a, ok := fc.anchors[c]; ok {
+		return a
+	}
+	fn := fc.curFn
+	count := map[string]int{}
+	for _, b := range fn.Blocks {
+		for _, in := range b.Instrs {
+			ci, ok := in.(ssa.CallInstruction)
+			if !ok {
+				continue
+			}
+			cc := ci.Common()
+			name := ""
+			if bi, ok := cc.Value.(*ssa.Builtin); ok {
+				name = bi.Name()
+			} else {
+				ks, _ := fc.calleeKeys(cc, Val{})
+				if len(ks) > 0 {
+					name = ks[0]
+				} else {
+					name = "dynamic"
+				}
+			}
+			fc.anchors[cc] = fmt.Sprintf("%s#%d", name, count[name])
+			count[name]++
+		}
+	}
+	return fc.anchors[c]
+}
+
+// pointClauses executes the `before_call` / `after_call` clauses attached to a call site:
+//   ghost X = E      assignment to a ghost variable
+//   assert E         obligation, then assumed
+//   assume E         unproved fact (listed in the evidence)
+func (fc *FnCtx) pointClauses(st *State, kind, anchor string, pos token.Pos) {
+	fc.pointClausesV(st, kind, anchor, pos, nil)
+}
+
+func (fc *FnCtx) pointClausesV(st *State, kind, anchor string, pos token.Pos, vars map[string]Val) {
+	con := fc.eng.contracts[fc.eng.fnName(fc.curFn)]
+	if con == nil || anchor == "" {
+		return
+	}
+	for _, c := range con.Extra[kind] {
+		if !strings.HasPrefix(c.Text, anchor+":") {
+			continue
+		}
+		stmt := strings.TrimSpace(c.Text[len(anchor)+1:])
+		word, rest := splitWord(stmt)
+		env := &specEnv{fc: fc, st: st, old: fc.entry, vars: map[string]Val{}, entry: fc.params, localFn: fc.curFn}
+		if vars != nil {
+			env.vars = copyVars(vars)
+			if kind == "at_exit" {
+				env.localFn = nil
+			}
+		}
+		if fc.curFn.Pkg != nil {
+			env.pkg = fc.curFn.Pkg.Pkg
+		}
+		switch word {
+		case "ghost":
+			i := strings.Index(rest, "=")
+			if i < 0 {
+				fc.errorf("%s: bad ghost assignment %q", c.Pos, rest)
+				continue
+			}
+			name := strings.TrimSpace(rest[:i])
+			if fc.eng.ghosts[name] == nil {
+				fc.errorf("%s: unknown ghost variable %s", c.Pos, name)
+				continue
+			}
+			ex, err := parseSpecExpr(rest[i+1:])
+			if err != nil {
+				fc.errorf("%s: %v", c.Pos, err)
+				continue
+			}
+			func() {
+				defer func() {
+					if r := recover(); r != nil {
+						if se, ok := r.(specError); ok {
+							fc.errorf("spec error at %s: %s", c.Pos, se.msg)
+							return
+						}
+						panic(r)
+					}
+				}()
+				v := fc.evalSpec(env, ex)
+				k := fc.ghostKey(name)
+				st.heap[k] = fc.sc.Define(fc.hv[k].name, fc.hv[k].sort, v.T)
+			}()
+		case "assert", "assume":
+			ex, err := parseSpecExpr(rest)
+			if err != nil {
+				fc.errorf("%s: %v", c.Pos, err)
+				continue
+			}
+			g := fc.evalBool(env, &Clause{Text: rest, Expr: ex, Pos: c.Pos})
+			if word == "assert" {
+				fc.oblige(st, "assert", g, pos, rest)
+			} else {
+				fc.note("ASSUMED (not proved) at %s: %s", anchor, rest)
+			}
+			fc.assume(st, g)
+		default:
+			fc.errorf("%s: unknown statement %q", c.Pos, word)
+		}
+	}
+}
+
+func (fc *FnCtx) execCallWith1(fr *frame, st *State, c *ssa.CallCommon, fnv Val, args []Val, instr ssa.Value, pos token.Pos) (Val, bool) {
 	resTy := c.Signature().Results()
 	var rty types.Type = resTy
 	if resTy.Len() == 1 {
@@ -144,7 +276,7 @@ func (fc *FnCtx) execBuiltin(st *State, b *ssa.Builtin, args []Val, rty types.Ty
 		a := args[0]
 		switch t := a.Ty.Underlying().(type) {
 		case *types.Slice:
-			return fc.mkVal(app("len", a.T), rty), true
+			return fc.mkVal(slLen(a.T), rty), true
 		case *types.Basic:
 			return fc.mkVal(app("slen", a.T), rty), true
 		case *types.Map:
@@ -213,58 +345,78 @@ func (fc *FnCtx) execAppend(st *State, s, e Val, rty types.Type, pos token.Pos) 
 	es := fc.sorts.SortOf(et)
 	k := fc.elemKey(et)
 	h := fc.heapGet(st, k)
+	at := fc.atFn(et)
 	var eLen, eArr, eOff string
 	if e.Sort == sortStr { // append([]byte, string...)
 		eLen = app("slen", e.T)
 	} else {
-		eLen, eArr, eOff = app("len", e.T), app("arr", e.T), app("off", e.T)
+		eLen, eArr, eOff = slLen(e.T), slArr(e.T), slOff(e.T)
 	}
-	n := fc.sc.Define("apn", "Int", app("+", app("len", s.T), eLen))
+	sArr, sOff, sLen := slArr(s.T), slOff(s.T), slLen(s.T)
+	n := fc.sc.Define("apn", "Int", app("+", sLen, eLen))
 	fits := fc.sc.Define("fits", "Bool", app("<=", n, app("cap", s.T)))
-	// in place
-	base := app("+", app("off", s.T), app("len", s.T))
-	var inplace, fresh string
+	base := fc.sc.Define("apbase", "Int", app("+", sOff, sLen))
 	newArr := fc.newRef(st)
 	newCap := fc.sc.Fresh("cap", "Int")
 	fc.assume(st, app("<=", n, newCap))
+	src := func(j string) string { // j-th appended element
+		if e.Sort == sortStr {
+			return app("sat", e.T, j)
+		}
+		return app(at, h, eArr, eOff, j)
+	}
+	old := app("select", h, sArr)
+	var inplace, fresh string
+	var inAt, frAt func(a, o, i string) string
+	nc := fc.sc.Fresh("apc", fmt.Sprintf("(Array Int %s)", es))
+	// fresh copy: the first len(s) elements are those of s, then the appended ones
+	fc.assume(st, fmt.Sprintf("(forall ((j!q Int)) (! (=> (and (<= 0 j!q) (< j!q %s)) (= (select %s j!q) (ite (< j!q %s) (select %s (+ %s j!q)) %s))) :pattern ((select %s j!q))))",
+		n, nc, sLen, old, sOff, src(app("-", "j!q", sLen)), nc))
+	fresh = app("store", h, newArr, nc)
+	frAt = func(a, o, i string) string {
+		x := app("+", o, i)
+		return ite(eq(a, newArr), ite(and(app("<=", "0", x), app("<", x, sLen)), app(at, h, sArr, sOff, x),
+			ite(and(app("<=", sLen, x), app("<", x, n)), src(app("-", x, sLen)), app("select", nc, x))), app(at, h, a, o, i))
+	}
 	if isNumeral(eLen) && e.Sort != sortStr {
 		var cnt int
 		fmt.Sscan(eLen, &cnt)
-		c := app("select", h, app("arr", s.T))
+		c := old
 		for j := 0; j < cnt; j++ {
-			ev := app("select", app("select", h, eArr), app("+", eOff, fmt.Sprint(j)))
-			c = app("store", c, app("+", base, fmt.Sprint(j)), ev)
+			c = app("store", c, app("+", base, fmt.Sprint(j)), src(fmt.Sprint(j)))
 		}
-		inplace = app("store", h, app("arr", s.T), c)
-		// fresh copy: content constrained pointwise
-		nc := fc.sc.Fresh("apc", fmt.Sprintf("(Array Int %s)", es))
-		old := app("select", h, app("arr", s.T))
-		fc.assume(st, fmt.Sprintf("(forall ((j!q Int)) (! (=> (and (<= 0 j!q) (< j!q (len %s))) (= (select %s j!q) (select %s (+ (off %s) j!q)))) :pattern ((select %s j!q))))", s.T, nc, old, s.T, nc))
-		for j := 0; j < cnt; j++ {
-			ev := app("select", app("select", h, eArr), app("+", eOff, fmt.Sprint(j)))
-			fc.assume(st, eq(app("select", nc, app("+", app("len", s.T), fmt.Sprint(j))), ev))
+		inplace = app("store", h, sArr, c)
+		inAt = func(a, o, i string) string {
+			t := app(at, h, a, o, i)
+			for j := cnt - 1; j >= 0; j-- {
+				t = ite(and(eq(a, sArr), eq(app("+", o, i), app("+", base, fmt.Sprint(j)))), src(fmt.Sprint(j)), t)
+			}
+			return t
 		}
-		fresh = app("store", h, newArr, nc)
 	} else {
 		nc1 := fc.sc.Fresh("apc", fmt.Sprintf("(Array Int %s)", es))
-		old := app("select", h, app("arr", s.T))
-		src := func(j string) string {
-			if e.Sort == sortStr {
-				return app("sat", e.T, j)
-			}
-			return app("select", app("select", h, eArr), app("+", eOff, j))
-		}
 		fc.assume(st, fmt.Sprintf("(forall ((j!q Int)) (! (= (select %s j!q) (ite (and (<= %s j!q) (< j!q (+ %s %s))) %s (select %s j!q))) :pattern ((select %s j!q))))",
 			nc1, base, base, eLen, src(app("-", "j!q", base)), old, nc1))
-		inplace = app("store", h, app("arr", s.T), nc1)
-		nc := fc.sc.Fresh("apc", fmt.Sprintf("(Array Int %s)", es))
-		fc.assume(st, fmt.Sprintf("(forall ((j!q Int)) (! (=> (and (<= 0 j!q) (< j!q %s)) (= (select %s j!q) (ite (< j!q (len %s)) (select %s (+ (off %s) j!q)) %s))) :pattern ((select %s j!q))))",
-			n, nc, s.T, old, s.T, src(app("-", "j!q", app("len", s.T))), nc))
-		fresh = app("store", h, newArr, nc)
+		inplace = app("store", h, sArr, nc1)
+		inAt = func(a, o, i string) string {
+			x := app("+", o, i)
+			return ite(and(eq(a, sArr), app("<=", base, x), app("<", x, app("+", base, eLen))), src(app("-", x, base)), app(at, h, a, o, i))
+		}
 	}
-	st.heap[k] = fc.sc.Define(fc.hv[k].name, fc.hv[k].sort, ite(fits, inplace, fresh))
-	res := ite(fits, app("mk_slice", app("arr", s.T), app("off", s.T), n, app("cap", s.T)), app("mk_slice", newArr, "0", n, newCap))
-	return fc.mkVal(fc.sc.Define("app", sortSlice, res), rty)
+	st.heap[k] = fc.sc.DefineConst(fc.hv[k].name, fc.hv[k].sort, ite(fits, inplace, fresh))
+	fc.bridge(et, st.heap[k], func(a, o, i string) string { return ite(fits, inAt(a, o, i), frAt(a, o, i)) })
+	res := ite(fits, app("mk_slice", sArr, sOff, n, app("cap", s.T)), app("mk_slice", newArr, "0", n, newCap))
+	rv := fc.mkVal(fc.sc.Define("app", sortSlice, res), rty)
+	if isNumeral(eLen) && e.Sort != sortStr {
+		// name the appended elements in the new heap (a valid fact; gives the solver the ground
+		// terms that existential witnesses about "the element just appended" need)
+		var cnt int
+		fmt.Sscan(eLen, &cnt)
+		for j := 0; j < cnt; j++ {
+			fc.assume(st, eq(app(at, st.heap[k], app("arr", rv.T), app("off", rv.T), app("+", sLen, fmt.Sprint(j))), src(fmt.Sprint(j))))
+		}
+	}
+	return rv
 }
 
 // ---- contract application at a call site ----
@@ -389,7 +541,8 @@ func (fc *FnCtx) havocTarget(st *State, env *specEnv, a *AssignTarget) {
 		old := app("select", h, app("arr", sv.T))
 		// only the window [off, off+len) may change
 		fc.assume(st, fmt.Sprintf("(forall ((j!q Int)) (! (=> (or (< j!q (off %s)) (>= j!q (+ (off %s) (len %s)))) (= (select %s j!q) (select %s j!q))) :pattern ((select %s j!q))))", sv.T, sv.T, sv.T, nc, old, nc))
-		st.heap[k] = fc.sc.Define(fc.hv[k].name, fc.hv[k].sort, app("store", h, app("arr", sv.T), nc))
+		_ = h
+		fc.setArr(st, sl.Elem(), app("arr", sv.T), nc)
 	case "map":
 		mv := fc.evalSpec(env, a.Expr)
 		m, ok := mv.Ty.Underlying().(*types.Map)
